@@ -190,7 +190,7 @@ def main(tier, seed):
     rng = random.Random(seed + 17)
     nviol = 0
     # ---- (a) relevance marking: correspondence (through run_sup_predict) + oracle
-    N = 200 if tier == "quick" else 4000
+    N = 200 if tier == "quick" else 16000
     terms, expect, insts = [], [], []
     for i in range(N):
         it = gen_instance(rng, nmax=8 if tier == "quick" else 12, m=rng.randint(1, 4))
@@ -214,7 +214,7 @@ def main(tier, seed):
     bad = corr(rep, "correspondence Model/Sup.predict_batch (mark_nodes) vs SupervisedOPF.predict: relevant flags after a prediction pass", "C17rel", terms, expect, insts)
     rep.corr["relevant"] = dict(cases=len(terms), disagreements=None if bad is None else len(bad))
     # ---- (b) learn: conservation + best model kept (oracle on the real arrays)
-    NL = 60 if tier == "quick" else 1200
+    NL = 60 if tier == "quick" else 4000
     lstats = dict(runs=0, draws=0, iterations=0, crashed=0)
     lterms, lexpect, lmetas = [], [], []
     for i in range(NL):
@@ -284,7 +284,7 @@ def main(tier, seed):
                           lmetas[i].desc(), key="learn:model")
             nviol += 1
     # ---- (c) prune: final training set is a sub-multiset with labels intact (oracle)
-    NP = 40 if tier == "quick" else 800
+    NP = 40 if tier == "quick" else 2500
     pruned = 0
     pterms, pexpect, pmetas = [], [], []
     for i in range(NP):
